@@ -40,9 +40,14 @@ def wrong_claims(c):
     statistic or for num_rows (a wrong claim propagates upwards, a wrong row count into every other statistic; only the lowest
     operator is blamed)"""
     kids = {}
+    names = {}
+    unmeasured = set()   # nodes whose sub-plan could not be executed on its own (e.g. expressions that need a ScalarSubqueryExec above)
     wrong = {}   # idx -> set of stats wrong (any partition)
     for nd in c["nodes"]:
         kids[nd["idx"]] = nd["kids"]
+        names[nd["idx"]] = nd["name"]
+        if nd["err"]:
+            unmeasured.add(nd["idx"])
         for cl in nd["claims"]:
             if not cl["ok"]:
                 wrong.setdefault(nd["idx"], set()).add(cl["stat"])
@@ -60,7 +65,9 @@ def wrong_claims(c):
     for nd in c["nodes"]:
         for cl in nd["claims"]:
             if not cl["ok"] and not any(cl["stat"] in wrong.get(d, ()) or "num_rows" in wrong.get(d, ()) for d in desc(nd["idx"])):
-                out.append({"node": nd["name"], "partition": None if nd["part"] < 0 else nd["part"], "stat": cl["stat"],
+                out.append({"node": nd["name"], "below": sorted({names[d] for d in desc(nd["idx"])}),
+                            "below_unmeasured": bool(unmeasured & desc(nd["idx"])),
+                            "partition": None if nd["part"] < 0 else nd["part"], "stat": cl["stat"],
                             "column": None if cl["col"] < 0 else cl["col"], "claimed_exact": cl["claimed"], "measured": cl["measured"]})
     return out
 
@@ -73,12 +80,22 @@ def key_of(w):
     op, st = w["node"].split("(")[0], w["stat"]
     if st == "distinct_count" and w["claimed_exact"] == "1" and w["measured"] == "0":
         return "C29-distinct_count-1-claimed-for-empty-output"
-    if st == "num_rows" and w["partition"] is None and op in ("LocalLimitExec", "SortExec", "CoalesceBatchesExec"):
+    # SortExec(TopK) with preserve_partitioning shares one dynamic threshold between its partitions: how many rows come out of a whole-node
+    # run depends on scheduling, so the wrong whole-node claim may first be caught above the limiting operator
+    fetchers = ("LocalLimitExec", "SortExec(TopK)", "CoalesceBatchesExec")
+    if st == "num_rows" and w["partition"] is None and (op in ("LocalLimitExec", "SortExec", "CoalesceBatchesExec")
+                                                       or any(b in fetchers for b in w.get("below", []))):
         return "C29-per-partition-fetch-applied-to-whole-node-num_rows"
-    if op in JOINS and st in ("null_count", "min_value", "max_value", "distinct_count", "sum_value"):
+    # the joins hand their inputs' exact column statistics upwards; whether the claim is already false AT the join depends on which rows a
+    # re-execution of the sub-plan happens to produce (limits without order, scheduling) or the join cannot be executed on its own
+    # (expressions that need the ScalarSubqueryExec above): a wrong column statistic anywhere above a join is attributed to this class
+    if (op in JOINS or any(b in JOINS for b in w.get("below", []))) \
+            and st in ("null_count", "min_value", "max_value", "distinct_count", "sum_value"):
         return "C29-join-output-keeps-input-column-statistics-exact"
     if op == "DataSourceExec" and st in ("num_rows", "null_count"):
         return "C29-memory-source-with-pushed-limit-keeps-unlimited-statistics"
+    if op == "AggregateExec" and st == "num_rows" and w["partition"] is None:
+        return "C29-partial-aggregate-one-row-input-ignores-grand-total-rows-of-empty-partitions"
     if op == "UnionExec" and st in ("min_value", "max_value"):
         return "C29-union-merges-exact-min-max-of-an-empty-input"
     return "C29-%s-%s" % (op, st)
@@ -148,7 +165,7 @@ def run(pid, tier, seed, replay):
     ck.coverage.update({
         "evaluations": len(cases),
         "distinct_nontrivial": len(nt),
-        "rule": "plans: same zoo as C53 (C01-generator SQL, 57-statement SQL corpus x 9 option sets x partitions x batch sizes, random operator trees of depth 1-3 "
+        "rule": "plans: same zoo as C53 (C01-generator SQL, 58-statement SQL corpus x 9 option sets x partitions x batch sizes, random operator trees of depth 1-3 "
                 "over memory sources, fixed witness trees); every node, whole and per partition; non-trivial plan = at least 3 Exact claims were compared with "
                 "measured values. algebra: Precision<usize> add/sub/multiply/min/max/to_inexact and Statistics::with_fetch on values incl. 0, small, 2^32, "
                 "usize::MAX/2.., usize::MAX-2..usize::MAX; non-trivial = the result is Exact",
